@@ -1074,6 +1074,10 @@ func GenRegionErrorResp(req *Request, e *errorpb.Error) (*Response, error) {
 		p = &kvrpcpb.CheckSecondaryLocksResponse{
 			RegionError: e,
 		}
+	case CmdLockWaitInfo:
+		p = &kvrpcpb.GetLockWaitInfoResponse{
+			RegionError: e,
+		}
 	case CmdFlashbackToVersion:
 		p = &kvrpcpb.FlashbackToVersionResponse{
 			RegionError: e,
